@@ -377,7 +377,6 @@ void pbt_property(Ctx &c) {
         if (o.n_compared > 0) c.label("refused-call-digest-compared");
         if (x.did_retry) c.label("failed-solve-retried");
         if (x.excl_zero_freq) c.label("excluded_known:zero-frequency-calibration");
-        if (x.excl_unknown_rollback) c.label("excluded_known:rejected-standard-not-rolled-back");
         c.track_max("digests compared per case", (double)o.n_compared);
         c.track_max("failing calls per case", (double)o.n_fail);
         c.track_max("calls per case", (double)x.ncalls);
